@@ -463,6 +463,11 @@ def call_bound(it, f: BoundBuiltin, args, kwargs):
             return t.isalpha()
     if isinstance(t, SymSeq):
         return it.engine.symseq_method(it, t, name, args, kwargs)
+    if isinstance(t, SymMap) and name == "get" and len(args) == 1 and not kwargs:
+        # dict.get(key): the value when the key is present, else None
+        k = it.key_z(args[0])
+        from .values import VOpt
+        return VOpt(z3.Not(z3.Select(t.dom, k)), t.get(k))
     raise Unsupported(f"method {name} of {t!r}")
 
 
@@ -791,6 +796,9 @@ def call_ext(it, f: ExtRef, args, kwargs):
         return args[1]
     if n in ("typing.TypeVar", "typing.NewType"):
         return Opaque("typing")
+    if n == "functools.partial":
+        fn0, pre, prekw = args[0], list(args[1:]), dict(kwargs)
+        return ModelCallable(lambda it2, a, k: it2.call(fn0, pre + list(a), dict(prekw, **k)), name="partial")
     # quantities
     parts = n.split(".")
     if len(parts) >= 2 and parts[-2] in QTY_UNITS:
